@@ -230,6 +230,7 @@ type verifStorage struct {
 	devClient, devCode string
 	devStored          []verifDevStore
 	devLookups         []verifDevLookup
+	devErr             int // 0 none, 1 the state lookup times out, 2 the state lookup fails otherwise
 
 	// liveness answers for token ids (userinfo / introspection)
 	userinfoCalls, introspectCalls int
